@@ -54,10 +54,41 @@ func c14Field(e ast.Expr, viaInterp bool) (string, bool) {
 	return "", false
 }
 
+// c14ZeroConsts: package constants declared with the literal value 0 (`DefaultMode IOMode = 0`); c14StructTypes: named struct
+// types, whose empty composite literal `T{}` is the zero value. Both are read from interp/interp.go before the walk.
+var c14ZeroConsts, c14StructTypes = map[string]bool{}, map[string]bool{}
+
+func c14ScanDecls(f *ast.File) {
+	for _, d := range f.Decls {
+		gd, ok := d.(*ast.GenDecl)
+		if !ok {
+			continue
+		}
+		for _, sp := range gd.Specs {
+			switch x := sp.(type) {
+			case *ast.ValueSpec:
+				if gd.Tok == token.CONST && len(x.Names) == 1 && len(x.Values) == 1 {
+					if bl, ok := x.Values[0].(*ast.BasicLit); ok && bl.Value == "0" {
+						c14ZeroConsts[x.Names[0].Name] = true
+					}
+				}
+			case *ast.TypeSpec:
+				if _, ok := x.Type.(*ast.StructType); ok {
+					c14StructTypes[x.Name.Name] = true
+				}
+			}
+		}
+	}
+}
+
 func c14IsZero(e ast.Expr) bool {
 	switch x := e.(type) {
 	case *ast.Ident:
-		return x.Name == "nil" || x.Name == "false"
+		return x.Name == "nil" || x.Name == "false" || c14ZeroConsts[x.Name]
+	case *ast.CompositeLit:
+		if id, ok := x.Type.(*ast.Ident); ok && len(x.Elts) == 0 && c14StructTypes[id.Name] {
+			return true
+		}
 	case *ast.BasicLit:
 		return x.Value == `""` || x.Value == "0" || x.Value == "``"
 	case *ast.CallExpr:
@@ -499,6 +530,7 @@ func init() {
 		s := header("C14Fields", "interp/interp.go (type interp struct, newInterp, setExecuteConfig, ExecProgram), interp/newexecute.go (New, Execute, ExecuteContext, resetCore, resetVars, ResetRand)")
 		ip := parseFile("interp/interp.go")
 		ne := parseFile("interp/newexecute.go")
+		c14ScanDecls(ip)
 
 		// field names
 		var fields []string
